@@ -229,6 +229,7 @@ class PathChecker:
         self.reproduced = 0
         self.seen = {}
         self.twins_ok = set()
+        self.last_env = None
         self.npaths = 0
         self.model_timeout_ms = 5000
 
@@ -447,6 +448,7 @@ class PathChecker:
             else:
                 self._counterexample(s, name, res)
             s.pop()
+        pending_twins = []
         for name, f in twins:
             if name in self.twins_ok:
                 continue                       # already witnessed for this configuration
@@ -454,16 +456,33 @@ class PathChecker:
             if z3.is_false(z3.simplify(f)):
                 res['twins'][name] = False
                 continue
-            r, _ = core.robust_check(self.base + ex.pc + L.axioms + [f], 20000)
-            res['twins'][name] = (r == z3.sat)
-            if r == z3.sat:
+            if z3.is_true(z3.simplify(f)):
+                res['twins'][name] = True
                 self.twins_ok.add(name)
+                continue
+            pending_twins.append((name, f))
+        self.last_env = None
         res['solver_s'] = time.time() - ts
         # witness validation
         self.npaths += 1
         ve = int(h.cfg.get('validate_every', 1)) if isinstance(getattr(h, 'cfg', None), dict) else 1
         if h.validate and not res['violations'] and not res['also_sat'] and (self.npaths % ve == 0 or self.npaths <= 2):
             self._validate(s, out, res)
+        # reachability twins: first on the validated witness of this path (no solver needed), else by a query
+        for name, f in pending_twins:
+            ok = False
+            if self.last_env is not None:
+                try:
+                    from . import evalq
+                    ok = bool(evalq.evaluate(f, self.last_env))
+                except Exception:
+                    ok = False
+            if not ok:
+                r, _ = core.robust_check(self.base + ex.pc + L.axioms + [f], 20000)
+                ok = (r == z3.sat)
+            res['twins'][name] = ok
+            if ok:
+                self.twins_ok.add(name)
         if res['sample'] is None:
             res['sample'] = self._sample(s, out)
         return res
@@ -545,6 +564,7 @@ class PathChecker:
                 msg = 'concrete run failed: %s: %s' % (type(e).__name__, e)
                 continue
             cobs = self.h.observe(cinp, cout)
+            self.last_env = env
             msg = _compare_observations(obs, cobs, env)
             if msg is not None and self._near_rounding_boundary(env):
                 # an integer-part argument sits within 1e-6 of its boundary: the float computation may round the other way
